@@ -34,12 +34,25 @@ static void ensure_fixture() {
     ::mkdir((vr::env("VERIF_SCRATCH", "/verif/build/scratch/tmp") + "/uploads").c_str(), 0777);
 }
 
+static void debug_dump(const char *what) {
+    if (!vr::envl("C02_DEBUG_HANG", 0)) return;
+    std::string cmd = "gdb -p " + std::to_string(getpid()) + " -batch -ex 'thread apply all bt 25' > " + vr::env("VERIF_SCRATCH", ".") + "/hang-" + what + ".txt 2>&1";
+    if (system(cmd.c_str())) {}
+    std::string cmd2 = "(ss -tanpi 2>&1 | grep -E 'State|:" + std::to_string(g_fx->http_port) + "'; ss -xanp 2>&1 | grep " + std::to_string(getpid()) + "; ls -la /proc/" + std::to_string(getpid()) + "/fd; for f in /proc/" + std::to_string(getpid()) + "/fdinfo/*; do echo == $f; cat $f; done) >> " + vr::env("VERIF_SCRATCH", ".") + "/hang-" + what + ".txt 2>&1";
+    if (system(cmd2.c_str())) {}
+}
 // ---- probe: a well-formed request whose echo must come back exactly
+static bool probe_inner(char fe, int n, std::string &why, vc::Conn &c);
 static bool probe(char fe, int n, std::string &why) {
+    vc::Conn c; c.timeout_ms = 20000;
+    bool r = probe_inner(fe, n, why, c);
+    if (!r) { fprintf(stderr, "probe failed: fd=%d key=%s buf=%zu eof=%d timed_out=%d\n", c.fd, c.key.c_str(), c.buf.size(), (int)c.eof, (int)c.timed_out); debug_dump("inprobe"); }
+    return r;
+}
+static bool probe_inner(char fe, int n, std::string &why, vc::Conn &c) {
     std::string tag = "probe" + std::to_string(n);
     std::string body = "a=1&b=" + tag;
     typedef std::vector<std::pair<std::string, std::string>> Pairs;
-    vc::Conn c; c.timeout_ms = 20000;
     if (!g_fx->connect(c, fe)) { why = "probe: cannot connect (" + std::string(1, fe) + ")"; return false; }
     std::string reply_body;
     if (fe == 'h') {
@@ -249,11 +262,6 @@ static std::string build_fcgi(FuzzedDataProvider &fdp, std::string const &tag) {
     return out;
 }
 
-static void debug_dump(const char *what) {
-    if (!vr::envl("C02_DEBUG_HANG", 0)) return;
-    std::string cmd = "gdb -p " + std::to_string(getpid()) + " -batch -ex 'thread apply all bt 25' > " + vr::env("VERIF_SCRATCH", ".") + "/hang-" + what + ".txt 2>&1";
-    if (system(cmd.c_str())) {}
-}
 static size_t count_sub(std::string const &s, std::string const &sub) { size_t n = 0, p = 0; while ((p = s.find(sub, p)) != std::string::npos) { n++; p++; } return n; }
 
 extern "C" int LLVMFuzzerTestOneInput(const uint8_t *data, size_t size) {
